@@ -83,6 +83,8 @@ def expected (rows : Rows) (argv : List String) : Option String :=
   | ["unalign"] => some (ok (rows.map fun r => (r.1, ungap r.2)))
   | ["transpose"] => some (ok (transpose rows L))
   | "subsites" :: sites => do
+    -- (no site at all, flags: `subsitesExpected`)
+    if sites.isEmpty then none
     let ss ← sites.mapM parseInt?
     match selectSites rows L ss with
     | .ok r => some (ok r)
@@ -314,9 +316,68 @@ def subsetExpected (rows : Rows) (given fl : List String) : Option String :=
     | some is => some (ok ((rows.zipIdx.filter fun (_, i) => is.contains (i : Int) != rev).map Prod.fst))
   else some (ok (rows.filter fun r => given.contains r.1 != rev))
 
+/-- `subsites [sites…] [--sitefile f] [--ref-seq name] [-r] [--informative]` (cmd/subsites.go) on one alignment.
+Outer `none` = not modelled, `some none` = a failing status.  The sites come from the file (one integer per line)
+when one is given, else from the command line; none at all is refused.  `--informative`: the parsimony-informative
+sites of the alignment instead (none is refused; `--ref-seq` is then not looked at).  `--ref-seq`: the sites are
+positions on the ungapped reference row; `-r`: all the other sites.  Then `SelectSites`. -/
+def subsitesExpected (rows : Rows) (files : List (String × String)) (fl : List String) : Option (Option Rows) := do
+  let rec split : List String → Option (List (String × String) × List String)
+    | [] => some ([], [])
+    | a :: t =>
+      if a == "--ref-seq" || a == "--sitefile" then (match t with | v :: t' => (split t').map fun (o, p) => ((a, v) :: o, p) | [] => none)
+      else if a == "-r" || a == "--reverse" then (split t).map fun (o, p) => (("--reverse", "true") :: o, p)
+      else if a == "--informative" then (split t).map fun (o, p) => ((a, "true") :: o, p)
+      else if a.startsWith "-" then none else (split t).map fun (o, p) => (o, a :: p)
+  let (o, pos) ← split fl
+  let get (f : String) : Option String := (o.reverse.find? (·.1 == f)).map (·.2)
+  if (← effective "subsitesCmd" "output") != "stdout" then none
+  let L := lenOf rows
+  if rows.isEmpty then none
+  let informative := ((get "--informative").getD (← effective "subsitesCmd" "informative")) == "true"
+  let reverse := ((get "--reverse").getD (← effective "subsitesCmd" "reverse")) == "true"
+  let sitefile := (get "--sitefile").getD (← effective "subsitesCmd" "sitefile")
+  let refseq := (get "--ref-seq").isSome && !informative
+  let sites : Option (List Int) ←
+    if informative then
+      let alpha := autoAlphabet (rows.map Prod.snd)
+      if alpha != NUCLEOTIDS && alpha != AMINOACIDS then none else
+      some (some ((informativeSites rows L alpha).map Int.ofNat))
+    else if sitefile != "none" then
+      if sitefile == "stdin" || sitefile == "-" || sitefile.endsWith ".gz" then none else
+      match files.find? (·.1 == sitefile) with
+      | none => some none
+      | some f =>
+        let ls := f.2.splitOn "|"
+        let ls := if ls.getLast? == some "" then ls.dropLast else ls
+        if ls.any (fun l => l.startsWith "+" || l.contains '\r' || l.contains '_') then none else
+        some (ls.mapM parseInt?)
+    else
+      if pos.any (fun l => l.startsWith "+" || l.contains '_') then none else some (pos.mapM parseInt?)
+  match sites with
+  | none => some none
+  | some [] => some none
+  | some ss =>
+    let p1 : Option (List Int) := if refseq then (match refSites rows L ((get "--ref-seq").getD "") ss with | .ok r => some r | _ => none) else some ss
+    match p1 with
+    | none => some none
+    | some p1 =>
+      let p2 : Option (List Int) := if reverse then (match inversePositions L p1 with | .ok r => some r | _ => none) else some p1
+      match p2 with
+      | none => some none
+      | some p2 =>
+        match selectSites rows L p2 with
+        | .ok r => some (some r)
+        | .err => some none
+        | _ => none
+
 def expected2 (rows : Rows) (argv : List String) : Option String :=
   let L := lenOf rows
   match argv with
+  | "subsites" :: fl => do
+    match ← subsitesExpected rows [] fl with
+    | some r => some (ok r)
+    | none => some bad
   | "rename" :: fl =>
     if fl == ["--clean-names"] then some (ok (pairs (cleanNames (bagOf rows)))) else do
     match ← renameRegexpResult rows fl with
@@ -530,6 +591,10 @@ def expectedF (rows : Rows) (files : List (String × String)) (argv : List Strin
       | _ => none
     some (okF (pairs (rename m (bagOf rows))) "")
     | _ => none
+  | "subsites" :: fl => do
+    match ← subsitesExpected rows files fl with
+    | some r => some (okF r "")
+    | none => some badF
   | "subset" :: fl => do
     -- `-f <file>`: the names (indices, expressions) are read from the file, one per line and / or comma separated;
     -- what the command line names is not looked at
